@@ -439,7 +439,12 @@ func runC16(c *Ctx) {
 		c.check(len(rds) == 1, "R3", "Readdir call", p.Pos(rr.Pos()), "one Readdir per request", fmt.Sprintf("%d Readdir calls", len(rds)))
 		for _, rd := range rds {
 			k, ok := constInt(callOf(rd).Args[0])
-			c.check(ok && k > 0, "R3", "Readdir batch size", pos(rd), "positive batch size (n<=0 would return everything and never EOF)", "Readdir is called with a non-positive count: the end of the directory is never reported as an error and the client loops forever")
+			why := "Readdir is called with a non-positive count: the end of the directory is never reported as an error and the client loops forever"
+			if !ok {
+				why = "Readdir's batch size is not a constant (" + affineOf(callOf(rd).Args[0]).String() + "): a configuration can make it non-positive (the end of the directory is then never reported and the client loops forever) or so large that one NAME reply exceeds the 256 KiB frame the client accepts (the listing fails with a lost connection)"
+			}
+			// 1024 entries x (2 x 255-byte names + attributes) stay below the client's frame limit only for small batches
+			c.check(ok && k > 0 && k <= 256, "R3", "Readdir batch size", pos(rd), "small positive constant batch size (n<=0 would return everything and never EOF)", why)
 		}
 		var lp *loop
 		for _, l := range loopsOf(rr) {
